@@ -1,6 +1,7 @@
 package verifsim
 
 import (
+	"encoding/json"
 	"fmt"
 	"os"
 	"sort"
@@ -8,6 +9,7 @@ import (
 	"time"
 
 	"github.com/mimiro-io/datahub/internal/server"
+	dsvc "github.com/mimiro-io/datahub/internal/service/dataset"
 )
 
 // Concurrent store-level executor (C05, C19 concurrent part, C13 concurrent part).
@@ -61,6 +63,14 @@ type readTok struct {
 	next   uint64
 	ents   []string
 	err    error
+}
+// readScan is a whole-feed read in either direction; the reversed one is read entry by entry through the
+// service-level iterator (GET /changes?reverse=true) with other tasks scheduled in between.
+type readScan struct {
+	ds      string
+	reverse bool
+	ents    []string
+	err     error
 }
 type readFeed struct {
 	ds    string
@@ -138,6 +148,40 @@ func (r *ConcRun) execOp(t *Task, co *concOp) {
 		}
 		co.readRes = rt
 		r.Stats["reader_pages"]++
+	case "scan":
+		co.readAt = r.commits
+		rs := &readScan{ds: op.DS, reverse: op.Latest}
+		if rs.reverse {
+			of, err := dsvc.Of(server.NewBadgerAccess(h.Store, h.Dsm), op.DS)
+			if err != nil {
+				rs.err = err
+			} else if it, err := of.At(0); err != nil {
+				rs.err = err
+			} else {
+				it = it.Inverse()
+				for it.Next() {
+					var e server.Entity
+					if err := json.Unmarshal(it.Item(), &e); err != nil {
+						rs.err = err
+						break
+					}
+					rs.ents = append(rs.ents, h.Canon(&e).String())
+					hooks.Point(h.Store.VerifDB(), "harness.scan.step") // other tasks run between two entries
+				}
+				if rs.err == nil {
+					rs.err = it.Error()
+				}
+				_ = it.Close()
+			}
+		} else if ds := h.Dataset(op.DS); ds != nil {
+			res, err := ds.GetChanges(0, 0, false)
+			rs.err = err
+			if err == nil {
+				rs.ents = canonList(h, res.Entities)
+			}
+		}
+		co.readRes = rs
+		r.Stats["feed_scans"]++
 	case "nsid":
 		if c, err := h.Store.GetNamespacedIdentifier(op.S, nil); err != nil || c == "" {
 			co.err = fmt.Errorf("GetNamespacedIdentifier(%q) = %q, %v", op.S, c, err)
@@ -642,6 +686,40 @@ func (r *ConcRun) checkRead(m *Model, co *concOp) *Violation {
 		if v := fr.Verify(m.DS[rd.ds], rd.ents, rd.next, rd.limit); v != nil {
 			v.Message = fmt.Sprintf("task %d page after %d commits: %s", co.task, co.readAt, v.Message)
 			return v
+		}
+	case *readScan:
+		d := m.DS[rd.ds]
+		if d == nil {
+			return nil
+		}
+		r.Stats["reads_checked"]++
+		dir := "forward"
+		if rd.reverse {
+			dir = "reverse"
+		}
+		if rd.err != nil {
+			return viol(prop, "atomic-read", "scan-error:"+dir, "task %d: reading the whole change feed of %s (%s) while a compaction / writers were active failed: %v", co.task, rd.ds, dir, rd.err)
+		}
+		got := append([]string(nil), rd.ents...)
+		if rd.reverse {
+			for i, j := 0, len(got)-1; i < j; i, j = i+1, j-1 {
+				got[i], got[j] = got[j], got[i]
+			}
+		}
+		// the feed as of the start of the read, minus a subset of the versions identical to their predecessor
+		rem := d.removable()
+		gi := 0
+		for i, v := range d.Versions {
+			if gi < len(got) && got[gi] == v.Str {
+				gi++
+				continue
+			}
+			if !rem[i] {
+				return viol(prop, "atomic-read", "scan-differs:"+dir, "task %d: the change feed of %s read %s after %d commits lacks entry %d (%s), which is no duplicate of its predecessor; got %d of %d entries", co.task, rd.ds, dir, co.readAt, i, clip(v.Str), len(got), len(d.Versions))
+			}
+		}
+		if gi < len(got) {
+			return viol(prop, "atomic-read", "scan-differs:"+dir, "task %d: the change feed of %s read %s after %d commits has an entry the feed of that instant does not have: %s", co.task, rd.ds, dir, co.readAt, clip(got[gi]))
 		}
 	case *readFeed:
 		if r.tainted[rd.ds] || m.DS[rd.ds] == nil {
